@@ -281,3 +281,16 @@ func resolveAlong(bf *boundsFn, v ssa.Value, path []*ssa.BasicBlock) (string, in
 	}
 	return "", 0, false
 }
+
+// checkSpliceLoopsScope applies R11 to f and to the small unexported helpers
+// it calls (a filtering phase may live in a helper).
+func checkSpliceLoopsScope(p *Prog, r *Report, pc *panicChecker, f *ssa.Function) int {
+	if f == nil {
+		return 0
+	}
+	n := checkSpliceLoops(p, r, pc, f)
+	for _, g := range stringHelpers(f) {
+		n += checkSpliceLoops(p, r, pc, g)
+	}
+	return n
+}
